@@ -455,6 +455,7 @@ pub fn c02_probes() -> Vec<(&'static str, String)> {
         ("const-string-index", "const C: str = \"hello\"[1]\n\ndef main() -> None:\n    print(C)\n".to_string()),
         ("int-float-comparison", "def f(n: int, x: float) -> bool:\n    return n < x\n\ndef main() -> None:\n    print(f(1, 2.5))\n".to_string()),
         ("fstring-interpolation-blanks", p("    x = 3\n    name = \"n\"\n    print(f\"{ x } and {x } and { name}\")\n")),
+        ("big-integer-literal-local", p("    k: int = 9000000000000000000\n    j = 5000000000\n    n = -5000000000\n    print(j)\n    print(n)\n    print(k // 4)\n")),
         ("pow-variable-base", p("    a: int = 2\n    b = 3\n    print(a ** 2)\n    print(b ** 3)\n")),
         ("pow-literal-base", p("    v = 2 ** 3\n    print(v)\n")),
         ("tuple-unpack", p("    a, b = (1, 2)\n    print(a + b)\n")),
